@@ -1,14 +1,370 @@
 import Astria.Mempool.Model
 import Driver.Common
-/- Area `mempool` (stub): replays the trace through the model. -/
+/- Area `mempool`: replays the trace of the real `Mempool` through `Astria.Mempool` (state dump
+   and query answers must be identical after every operation) and evaluates the C13 spec on
+   the values the implementation reported. -/
 namespace Driver.MempoolArea
+open Astria.Mempool
+
+def nAccts : Nat := 6
+def assets : List Nat := [0, 1, 2]
+
+/-! ## printing the model state exactly like the harness prints the real one -/
+
+def tot (es : List (Nat × Nat)) (k : Nat) : Nat :=
+  (es.filter (fun e => e.1 == k)).foldl (fun s e => s + e.2) 0
+
+def joinOrDash (xs : List String) : String := if xs.isEmpty then "-" else ",".intercalate xs
+
+def fmtReason : Reason → String
+  | .expired => "exp"
+  | .nonceStale => "stale"
+  | .lowerNonce => "lower"
+  | .failedExec t => s!"fail{t}"
+  | .internal => "int"
+  | .included h c => s!"inc{h}/{c}"
+
+def fmtRow (t : Tx) : String :=
+  s!"{t.acct}:{t.nonce}:t{t.id}:" ++ "/".intercalate (assets.map (fun k => toString (tot t.costs k)))
+
+def sortNat (xs : List Nat) : List Nat := (xs.toArray.qsort (· < ·)).toList
+
+def fmtStatus : Option Status → String
+  | none => "-"
+  | some .pending => "P"
+  | some .parked => "K"
+  | some (.removed r) => fmtReason r
+
+def dump (s : State) (nTx : Nat) : String :=
+  let p := joinOrDash (s.pend.map fmtRow)
+  let k := joinOrDash (s.park.map fmtRow)
+  let c := joinOrDash ((sortNat s.contained).map (fun i => s!"t{i}"))
+  let rs := (s.cache.toArray.qsort (fun a b => a.1 < b.1)).toList
+  let r := joinOrDash (rs.map (fun e => s!"t{e.1}:{fmtReason e.2}"))
+  let x := joinOrDash ((List.range nTx).filterMap (fun i =>
+    match s.res.lookup i with
+    | some (h, code) => some s!"t{i}:{h}/{code}"
+    | none => none))
+  let bq := joinOrDash ((builderQueue s).map (fun t => s!"t{t.id}"))
+  let pn := joinOrDash ((List.range nAccts).filterMap (fun a =>
+    (pendingNonce s.pend a).map (fun n => s!"{a}:{n}")))
+  let st := joinOrDash ((List.range nTx).map (fun i => s!"t{i}:{fmtStatus (status s i)}"))
+  s!"P={p} K={k} C={c} R={r} QL={s.cacheQ.length} X={x} XL={s.res.length} bq={bq} pn={pn} st={st} len={len s}"
+
+/-! ## parsing -/
+
+def parseVec (s : String) : List (Option Nat) :=
+  (s.splitOn "/").map (fun p => if p = "_" then none else p.toNat?)
+
+def vecBal (v : List (Option Nat)) : Bal := fun k => (v.getD k none).getD 0
+
+def vecCosts (v : List (Option Nat)) : List (Nat × Nat) :=
+  (List.range v.length).filterMap (fun k => (v.getD k none).map (fun x => (k, x)))
+
+def parseLabel (s : String) : Option Nat :=
+  if s.startsWith "t" then (s.drop 1).toString.toNat? else none
+
+def parseReason (s : String) : Reason :=
+  if s = "exp" then .expired
+  else if s = "stale" then .nonceStale
+  else if s = "lower" then .lowerNonce
+  else if s = "int" then .internal
+  else if s.startsWith "fail" then .failedExec ((s.drop 4).toString.toNat!)
+  else .internal
+
+def groupOfKind (k : Nat) : Nat := 4 - k
+
+def fmtOut : Out → String
+  | .pending => "pending"
+  | .parked => "parked"
+  | .done => "ok"
+  | .err .alreadyPresent => "err:already-present"
+  | .err .nonceTooLow => "err:nonce-too-low"
+  | .err .nonceTaken => "err:nonce-taken"
+  | .err .nonceGap => "err:nonce-gap"
+  | .err .accountSizeLimit => "err:account-size-limit"
+  | .err .balanceTooLow => "err:balance-too-low"
+  | .err .parkedSizeLimit => "err:parked-size-limit"
+
+/-- What the implementation reported (parsed from its dump). -/
+structure IRow where
+  acct : Nat
+  nonce : Nat
+  id : Nat
+  costs : List Nat
+  deriving Repr
+
+structure IDump where
+  pend : List IRow
+  park : List IRow
+  contained : List Nat
+  cache : List (Nat × String)
+  results : List Nat
+  bq : List Nat
+  pn : List (Nat × Nat)
+  st : List (Nat × String)
+  len : Nat
+
+def listOf (s : String) : List String := if s = "-" then [] else s.splitOn ","
+
+def parseRow (s : String) : Option IRow :=
+  match s.splitOn ":" with
+  | [a, n, t, c] =>
+    match a.toNat?, n.toNat?, parseLabel t with
+    | some a, some n, some t => some ⟨a, n, t, (c.splitOn "/").map (fun x => x.toNat?.getD (2 ^ 200))⟩
+    | _, _, _ => none
+  | _ => none
+
+def parsePair (s : String) : Option (Nat × String) :=
+  match s.splitOn ":" with
+  | [t, r] => (parseLabel t).map (fun t => (t, r))
+  | _ => none
+
+def field (ws : List String) (key : String) : Option String :=
+  (ws.find? (fun w => w.startsWith (key ++ "="))).map (fun w => (w.drop (key.length + 1)).toString)
+
+def parseDump (s : String) : Option IDump := do
+  let ws := Driver.words s
+  let p ← (listOf (← field ws "P")).mapM parseRow
+  let k ← (listOf (← field ws "K")).mapM parseRow
+  let c ← (listOf (← field ws "C")).mapM parseLabel
+  let r ← (listOf (← field ws "R")).mapM parsePair
+  let x ← (listOf (← field ws "X")).mapM parsePair
+  let bq ← (listOf (← field ws "bq")).mapM parseLabel
+  let pn ← (listOf (← field ws "pn")).mapM (fun e =>
+    match e.splitOn ":" with
+    | [a, n] => match a.toNat?, n.toNat? with
+      | some a, some n => some (a, n)
+      | _, _ => none
+    | _ => none)
+  let st ← (listOf (← field ws "st")).mapM parsePair
+  let l ← (← field ws "len").toNat?
+  pure ⟨p, k, c, r, x.map (·.1), bq, pn, st, l⟩
+
+/-! ## driver state -/
+
+structure St where
+  model : Option State := none
+  txs : Array Tx := #[]
+  -- chain state as told by `chain` / `fees` lines
+  cNonce : List (Nat × Nat) := []
+  cBal : List (Nat × List (Option Nat)) := []
+  fees : List (Option Nat) := [none, none, none, none]
+  allowed : List Bool := [true, false, false]
+  pmax : Nat := 0
+  -- ghost state of the monitors (from the ops and the implementation's answers only)
+  shown : List (Nat × Nat) := []                  -- account ↦ nonce last shown
+  vbal : List (Nat × List (Option Nat)) := []     -- account ↦ balances at last validation
+  accepted : List Nat := []
+  acked : List Nat := []
+  lost : List Nat := []                           -- already reported by `no_silent_loss`
+
+def lookupD {β} (l : List (Nat × β)) (k : Nat) (d : β) : β := (l.lookup k).getD d
+
+def setKey {β} (l : List (Nat × β)) (k : Nat) (v : β) : List (Nat × β) :=
+  (k, v) :: l.filter (fun e => e.1 != k)
+
+def St.chain (st : St) : Chain :=
+  { nonce := fun a => lookupD st.cNonce a 0
+    bal := fun a => vecBal (lookupD st.cBal a [])
+    fee := fun k => (st.fees.getD k none)
+    allowed := fun f => st.allowed.getD f false }
+
+def splitRes (impl : String) : String × String :=
+  match impl.splitOn " | " with
+  | [a, b] => (a, b)
+  | _ => (impl, "")
+
+/-- All permutations (for the iteration order of the address `HashSet` in `run_maintenance`). -/
+def perms : List Nat → List (List Nat)
+  | [] => [[]]
+  | x :: xs => (perms xs).flatMap (fun p => (List.range (p.length + 1)).map (fun i => p.take i ++ [x] ++ p.drop i))
+
+def allDistinct (xs : List Nat) : Bool := xs.eraseDups.length == xs.length
+
+/-! ## the C13 spec on an implementation dump -/
+
+def checkDump (st : St) (d : IDump) (afterMaintain : Bool) (modelDropped : List Nat) :
+    List (String × String) := Id.run do
+  let mut bad : List (String × String) := []
+  let pIds := d.pend.map (·.id)
+  let kIds := d.park.map (·.id)
+  -- one place
+  if !allDistinct (pIds ++ kIds) then
+    bad := ("one_place", s!"an id is held twice: ready={pIds} parked={kIds}") :: bad
+  if !(d.contained.all (fun i => (pIds ++ kIds).contains i) && (pIds ++ kIds).all (fun i => d.contained.contains i)
+       && allDistinct d.contained) then
+    bad := ("one_place", s!"tracked set {d.contained} differs from ready {pIds} ++ parked {kIds}") :: bad
+  if d.len != d.contained.length then
+    bad := ("one_place", s!"len {d.len} but {d.contained.length} tracked") :: bad
+  for (i, s) in d.st do
+    let want := if pIds.contains i then "P" else if kIds.contains i then "K" else ""
+    if want != "" && s != want then
+      bad := ("one_place", s!"t{i} is held as {want} but its status says {s}") :: bad
+    if want == "" && (s == "P" || s == "K") then
+      bad := ("one_place", s!"t{i} is not held but its status says {s}") :: bad
+  -- never silently lost
+  for i in st.accepted do
+    if !(d.contained.contains i) && !(d.cache.any (·.1 == i)) && !(st.acked.contains i)
+        && !(st.lost.contains i) then
+      let why := if modelDropped.contains i then
+        " [failed demotion/promotion in run_maintenance: the model, which agrees with the code on this line, un-tracks it without a removal reason]"
+        else ""
+      bad := ("no_silent_loss", s!"accepted t{i} vanished: neither tracked nor in the removal cache (status {lookupD d.st i "?"}){why}") :: bad
+  -- per account
+  for a in List.range nAccts do
+    let pn := (d.pend.filter (·.acct == a)).map (·.nonce)
+    let kn := (d.park.filter (·.acct == a)).map (·.nonce)
+    let ls := lookupD st.shown a 0
+    let live := pn.filter (· ≥ ls)
+    if live != (List.range live.length).map (· + ls) then
+      bad := ("ready_consecutive", s!"account {a}: ready nonces {pn} are not consecutive from the shown nonce {ls}") :: bad
+    if afterMaintain && !((pn ++ kn).all (· ≥ ls)) then
+      bad := ("no_used_nonce_after_maintenance", s!"account {a}: nonces {pn} / {kn} below the chain nonce {ls} survived maintenance") :: bad
+    -- affordable from the balances last shown
+    let vb := lookupD st.vbal a []
+    for k in assets do
+      let total := ((d.pend.filter (·.acct == a)).map (fun r => r.costs.getD k 0)).foldl (· + ·) 0
+      if total > (vb.getD k none).getD 0 then
+        bad := ("ready_affordable", s!"account {a} asset {k}: ready costs {total} exceed the balance {(vb.getD k none).getD 0} last shown") :: bad
+    -- parked limit per account
+    if kn.length > 15 then
+      bad := ("parked_limits", s!"account {a} has {kn.length} parked transactions") :: bad
+    -- pending_nonce
+    let want := match pn.getLast? with | some n => some (n + 1) | none => none
+    if d.pn.lookup a != want then
+      bad := ("pending_nonce", s!"account {a}: pending_nonce {d.pn.lookup a} but ready nonces {pn}") :: bad
+  if d.park.length > st.pmax then
+    bad := ("parked_limits", s!"{d.park.length} parked transactions, limit {st.pmax}") :: bad
+  -- builder queue: exactly the ready transactions; per account and group in nonce order
+  if !(allDistinct d.bq && d.bq.all (fun i => pIds.contains i) && pIds.all (fun i => d.bq.contains i)) then
+    bad := ("builder_order", s!"builder queue {d.bq} is not the ready set {pIds}") :: bad
+  let info := d.bq.filterMap (fun i =>
+    match d.pend.find? (·.id == i), st.txs[i]? with
+    | some r, some t => some (r.acct, t.group, r.nonce)
+    | _, _ => none)
+  let rec scan : List (Nat × Nat × Nat) → Bool
+    | [] => true
+    | (a, g, n) :: rest => rest.all (fun (a', g', n') => !(a' == a && g' == g && n' ≤ n)) && scan rest
+  if !scan info then
+    bad := ("builder_order", s!"builder queue {d.bq} puts a higher nonce before a lower one of the same account and group") :: bad
+  return bad
+
+/-! ## the run -/
 
 def run (lines : Array String) : Driver.Report := Id.run do
   let mut r : Driver.Report := {}
+  let mut st : St := {}
   let mut n := 0
   for line in lines do
     n := n + 1
-    r := r.addDisagree n line "bad-area"
+    let (op, impl) := Driver.splitLine line
+    let (ires, idump) := splitRes impl
+    match Driver.words op with
+    | ["mempool", "reset", pmax, rmax] =>
+      let s0 := init { parkedMax := pmax.toNat!, resultsMax := rmax.toNat! }
+      st := { model := some s0, pmax := pmax.toNat! }
+      r := r.check n line impl s!"ok | {dump s0 0}"
+      r := r.bump "sessions"
+    | "mempool" :: rest =>
+      match st.model with
+      | none => r := r.addDisagree n line "no-session"
+      | some s =>
+        r := r.bump s!"op_{rest.headD ""}"
+        match rest with
+        | ["mk", t, a, nn, kind, fa, xa, xm] =>
+          let k := kind.toNat!
+          let tx : Tx :=
+            { id := (parseLabel t).getD 0, acct := a.toNat!, nonce := nn.toNat!, group := groupOfKind k,
+              kind := k, feeAsset := if k < 2 then some fa.toNat! else none,
+              xfer := if xa = "-" then none else some (xa.toNat!, xm.toNat!) }
+          if tx.id != st.txs.size then r := r.addDisagree n line "label-out-of-order"
+          st := { st with txs := st.txs.push tx }
+          r := r.check n line impl s!"{tx.group}"
+          r := r.bump s!"mk_kind{k}"
+        | ["chain", a, nn, b] =>
+          st := { st with cNonce := setKey st.cNonce a.toNat! nn.toNat!,
+                          cBal := setKey st.cBal a.toNat!
+                            ((parseVec b).zipWith (fun new old => match new with | some x => some x | none => old)
+                              ((lookupD st.cBal a.toNat! []) ++ [none, none, none])) }
+          r := r.check n line impl "ok"
+        | ["fees", f0, f1, f2, f3, al] =>
+          let upd (old : Option Nat) (s : String) : Option Nat := if s = "-" then old else s.toNat?
+          st := { st with fees := [upd (st.fees.getD 0 none) f0, upd (st.fees.getD 1 none) f1,
+                                   upd (st.fees.getD 2 none) f2, upd (st.fees.getD 3 none) f3],
+                          allowed := al.toList.map (· == '1') }
+          r := r.check n line impl "ok"
+        | _ =>
+          -- operations on the mempool: model result, then monitors on the implementation's dump
+          let (s', mres, isMaintain) : State × String × Bool :=
+            match rest with
+            | ["insert", t, cur, b, c, at_] =>
+              match st.txs[(parseLabel t).getD 0]? with
+              | none => (s, "unknown-tx", false)
+              | some tx =>
+                let s1 := (step s (.advance (at_.toNat! - s.now))).1
+                let (s2, out) := step s1 (.insert { tx with costs := vecCosts (parseVec c) } cur.toNat! (vecBal (parseVec b)))
+                (s2, fmtOut out, false)
+            | ["remove", t, reason] =>
+              match st.txs[(parseLabel t).getD 0]? with
+              | none => (s, "unknown-tx", false)
+              | some tx => ((step s (.removeInvalid tx.acct tx.nonce tx.id (parseReason reason))).1, "ok", false)
+            | ["uncache", t] => ((step s (.uncache ((parseLabel t).getD 0))).1, "ok", false)
+            | ["maintain", rc, h, res, at_] =>
+              let results : List (Nat × Nat) := (listOf res).filterMap (fun e =>
+                match e.splitOn ":" with
+                | [t, c] => (parseLabel t).map (fun t => (t, c.toNat!))
+                | _ => none)
+              let s1 := (step s (.advance (at_.toNat! - s.now))).1
+              let addrs := sortNat (addresses s1)
+              let go (order : List Nat) : State :=
+                (step s1 (.maintain st.chain (rc == "1") results h.toNat! order)).1
+              let first := go addrs
+              -- the Rust iterates a `HashSet`: any order of the accounts is a legal behaviour
+              let want := idump
+              let nTx := st.txs.size
+              if dump first nTx == want then (first, "ok", true)
+              else
+                match (perms addrs).find? (fun o => dump (go o) nTx == want) with
+                | some o => (go o, "ok", true)
+                | none => (first, "ok", true)
+            | _ => (s, "bad-op", false)
+          r := r.check n line impl s!"{mres} | {dump s' st.txs.size}"
+          if rest.headD "" == "insert" then r := r.bump s!"insert_{ires}"
+          -- ghost state of the monitors, from the op and the implementation's result
+          match rest with
+          | ["insert", t, cur, b, _, _] =>
+            let id := (parseLabel t).getD 0
+            match st.txs[id]? with
+            | some tx =>
+              st := { st with shown := setKey st.shown tx.acct cur.toNat! }
+              if ires == "pending" then st := { st with vbal := setKey st.vbal tx.acct (parseVec b) }
+              if ires == "pending" || ires == "parked" then
+                st := { st with accepted := id :: st.accepted.filter (· != id), acked := st.acked.filter (· != id) }
+            | none => pure ()
+          | ["uncache", t] =>
+            let id := (parseLabel t).getD 0
+            st := { st with acked := id :: st.acked }
+          | ["maintain", _, _, _, _] =>
+            st := { st with shown := (List.range nAccts).map (fun a => (a, lookupD st.cNonce a 0)),
+                            vbal := (List.range nAccts).map (fun a => (a, lookupD st.cBal a [])) }
+          | _ => pure ()
+          match parseDump idump with
+          | none => r := r.addMonitor "dump_parse" n line "cannot parse the state dump"
+          | some d =>
+            let agreed := impl == s!"{mres} | {dump s' st.txs.size}"
+            for (name, msg) in checkDump st d isMaintain (if agreed then s'.dropped else []) do
+              r := r.addMonitor name n line msg
+            st := { st with lost := st.lost ++ (st.accepted.filter (fun i =>
+              !(d.contained.contains i) && !(d.cache.any (·.1 == i)) && !(st.acked.contains i))) }
+            if isMaintain && s'.dropped.length > s.dropped.length then r := r.bump "maintain_failed_move"
+            if d.park.length == st.pmax && st.pmax > 0 then r := r.bump "parked_at_total_limit"
+            if (List.range nAccts).any (fun a => (d.park.filter (·.acct == a)).length == 15) then
+              r := r.bump "parked_at_account_limit"
+            if isMaintain then
+              r := r.bump "maintain_evaluated"
+          st := { st with model := some s' }
+    | _ => r := r.addDisagree n line "bad-area"
   return r
 
 end Driver.MempoolArea
